@@ -57,6 +57,44 @@ Theorem C01_every_execution_is_finite : forall w c rows ls s,
 Proof. exact pipeline_execution_bound. Qed.
 Print Assumptions C01_every_execution_is_finite.
 
+(* "...is reported BACK TO THAT QUEUE as finished exactly once": read at the queue's side.  [reports] is the list
+   of finish reports the queue receives along an execution - from the finisher (a seed whose tree is done) and
+   from the queue's own consumer, which finishes a row AT ONCE when its text is not a URL ([LDiscard]; whether a
+   text parses is an answer of the outside world, chosen by the label).  Along every execution: no row is
+   reported twice, only rows of the queue are reported, every row is queued, in flight or reported; in a state
+   that cannot move every row has been reported exactly once. *)
+Theorem C01_queue_hears_of_every_row_exactly_once : forall w c rows ls s,
+  NoDup (map row_id rows) -> run (init w c rows) ls = Some s ->
+  NoDup (reports (init w c rows) ls)
+  /\ (forall id, In id (reports (init w c rows) ls) -> In id (map row_id rows))
+  /\ Permutation (map row_id rows) (map row_id (p_src s) ++ flight_ids s ++ reports (init w c rows) ls)
+  /\ ((1 <= w)%nat -> (forall l, step s l = None) -> Permutation (map row_id rows) (reports (init w c rows) ls)).
+Proof. exact reports_exactly_once_closed. Qed.
+Print Assumptions C01_queue_hears_of_every_row_exactly_once.
+
+(* A row that has been reported is out of the pipeline for good: at every later moment of every continuation it
+   is not queued, not tracked by the reactor, in no channel and with no worker - and it is not reported again. *)
+Theorem C01_reported_row_never_in_the_pipeline_again : forall w c rows la lb s1 s2 id,
+  NoDup (map row_id rows) -> run (init w c rows) la = Some s1 -> In id (reports (init w c rows) la) ->
+  run s1 lb = Some s2 ->
+  ~ In id (map row_id (p_src s2)) /\ ~ In id (flight_ids s2) /\ ~ In id (p_table s2) /\ ~ In id (reports s1 lb).
+Proof. exact reported_never_again_closed. Qed.
+Print Assumptions C01_reported_row_never_in_the_pipeline_again.
+
+(* The consumer's discard arm: a row that is finished at once was at no earlier moment of the execution in the
+   pipeline or reported; the step takes no token, leaves the reactor's table and every channel as they were and
+   delivers exactly one report; at no later moment is the row in the pipeline or reported again. *)
+Theorem C01_row_finished_at_once_is_never_in_the_pipeline : forall w c rows ls s id u h r,
+  NoDup (map row_id rows) -> run (init w c rows) ls = Some s -> p_src s = (id, u, h) :: r ->
+  (forall la lb s0, ls = la ++ lb -> run (init w c rows) la = Some s0 ->
+     ~ In id (flight_ids s0) /\ ~ In id (p_table s0) /\ ~ In id (reports (init w c rows) la))
+  /\ exists s', step s LDiscard = Some s' /\ report_of s LDiscard = [id]
+       /\ p_src s' = r /\ p_tokens s' = p_tokens s /\ p_table s' = p_table s /\ p_places s' = p_places s
+       /\ forall lb s2, run s' lb = Some s2 ->
+            ~ In id (map row_id (p_src s2)) /\ ~ In id (flight_ids s2) /\ ~ In id (p_table s2) /\ ~ In id (reports s' lb).
+Proof. exact discarded_row_never_in_pipeline_closed. Qed.
+Print Assumptions C01_row_finished_at_once_is_never_in_the_pipeline.
+
 (* ---- one seed's whole life, for every list of per-pass oracles (= every site behaviour, every
    seen-store answer, every filter outcome) ---- *)
 
